@@ -199,3 +199,58 @@ def padDec (width : Nat) (x : Int) : Bytes :=
     List.replicate (width - d.length) 48 ++ d
 
 end ModVerif.GoRt
+
+namespace ModVerif.GoRt
+open ModVerif
+
+/-! ### maps as association lists (`map[K]V`; iteration order is never observed by translated code) -/
+
+def mapGet {κ ν : Type} [DecidableEq κ] (m : List (κ × ν)) (k : κ) (zero : ν) : ν × Bool :=
+  match m.find? (fun p => decide (p.1 = k)) with
+  | some p => (p.2, true)
+  | none => (zero, false)
+
+def mapSet {κ ν : Type} [DecidableEq κ] (m : List (κ × ν)) (k : κ) (v : ν) : List (κ × ν) :=
+  if (m.find? (fun p => decide (p.1 = k))).isSome then m.map (fun p => if p.1 = k then (k, v) else p) else m ++ [(k, v)]
+
+/-! ### strings.Split / strings.Join with a one-byte or longer separator (non-empty), strconv.Atoi, copy -/
+
+def splitAux (sep : Bytes) : Nat → Bytes → Bytes → List Bytes
+  | 0, _, cur => [cur.reverse]
+  | _ + 1, [], cur => [cur.reverse]
+  | f + 1, x :: xs, cur =>
+    if isPrefixOfB sep (x :: xs) then cur.reverse :: splitAux sep f ((x :: xs).drop sep.length) []
+    else splitAux sep f xs (x :: cur)
+/-- strings.Split for a non-empty separator (the translated code never splits on "") -/
+def split (s sep : Bytes) : List Bytes := splitAux sep (s.length + 1) s []
+
+def join (l : List Bytes) (sep : Bytes) : Bytes := joinWith sep l
+
+def atoiDigits : Bytes → Nat → Option Nat
+  | [], acc => some acc
+  | c :: cs, acc => if 48 ≤ c ∧ c ≤ 57 then atoiDigits cs (acc * 10 + (c.toNat - 48)) else none
+
+/-- strconv.Atoi: optional sign, at least one decimal digit, nothing else, value in the int64 range;
+    returns (value, error) with value 0 on a syntax error (the translated code never uses the value then) -/
+def atoi (s : Bytes) : Int × Option String :=
+  let (neg, ds) := match s with
+    | 43 :: r => (false, r)
+    | 45 :: r => (true, r)
+    | _ => (false, s)
+  if ds.isEmpty then (0, some "strconv.Atoi: syntax") else
+  match atoiDigits ds 0 with
+  | none => (0, some "strconv.Atoi: syntax")
+  | some n =>
+    let v : Int := if neg then -(Int.ofNat n) else Int.ofNat n
+    if v < -two63 then (-two63, some "strconv.Atoi: range")
+    else if v ≥ two63 then (two63 - 1, some "strconv.Atoi: range")
+    else (v, none)
+
+/-- `copy(dst[lo:], src)` on byte slices: overwrites min(len(dst)-lo, len(src)) bytes -/
+def copyAt (dst : Bytes) (lo : Int) (src : Bytes) : M Bytes :=
+  if lo < 0 ∨ lo > len dst then throw .panic else
+  let k := lo.toNat
+  let n := min (dst.length - k) src.length
+  pure (dst.take k ++ src.take n ++ dst.drop (k + n))
+
+end ModVerif.GoRt
